@@ -185,6 +185,34 @@ theorem strCat_lawful : Lawful strCatItem := strCatItem_lawful
     one-byte modifier (`flipBItem`): non-idempotent, self-inverse modifier -/
 theorem flip_lawful : Lawful flipZItem ∧ Lawful flipBItem := ⟨flipZItem_lawful, flipBItem_lawful⟩
 
+/-- Wave 4: the harness's "add an arithmetic progression to a range" item `ap` (range sum; the pending tag is relative to the
+    node's first element, so `push` hands the right child a DIFFERENT tag than the left one) is lawful — alone, as both
+    components of a `Combinator`, and run together with the correspondence guard `apGuard`.  So every theorem of this file
+    and of C02 applies to a lazy item that is asymmetric in its children. -/
+theorem ap_lawful :
+    Lawful apItem ∧ Lawful (prodItem apItem apItem) ∧ Lawful (guardItem apItem apGuard) ∧
+    Lawful (guardItem (prodItem apItem apItem) (prodGuard apGuard apGuard)) :=
+  ⟨apItem_lawful, prodItem_lawful apItem_lawful apItem_lawful, guardItem_lawful apItem_lawful _,
+   guardItem_lawful (prodItem_lawful apItem_lawful apItem_lawful) _⟩
+
+/-- The `push` of the harness's Rust item — `left.apply(ta, td); right.apply(ta + td * left.len, td)`, the way such an item is
+    normally written — is the model's `push` at every node whose left child starts where the node starts and whose right
+    child starts `left.len` positions later (every node of a tree whose `i`-th element has position `i`).  The driver checks
+    the equation itself on every `push` of a history (`apGuard`; a history with a call on which it fails gets `S any`). -/
+theorem ap_push_is_code_push (p l r : Ap) (q : Int) (hp : p.lo = some q) (hl : l.lo = some q) (hr : r.lo = some (q + l.len)) :
+    apPushCode p l r = apItem.push p l r ∧ apGuard.okPush p l r = true :=
+  ⟨ap_push_code_eq p l r q hp hl hr, by simp [apGuard, ap_push_code_eq p l r q hp hl hr]⟩
+
+/-- … and it is NOT symmetric in the children: handed over in the wrong order (seeded `C02_m11`: `push_at`; `C02_m13`:
+    `Combinator::push` for its second component) the progression restarts in the right half. -/
+theorem ap_swapped_push_differs :
+    let p : Ap := ⟨0, 2, 1, some 0, 1, 1⟩
+    let l := apLeaf 0 0
+    let r := apLeaf 1 0
+    apPushCode p l r = apItem.push p l r ∧
+    ((apPushCode p r l).2.2, (apPushCode p r l).2.1) ≠ ((apItem.push p l r).2.1, (apItem.push p l r).2.2) :=
+  ap_push_code_swapped_differs
+
 /-- `Combinator` does not forward `update` to its components (it keeps the trait's default): the product's `update` is the
     componentwise **merge**; for lawful components that observes the same as the components' own `update`. -/
 theorem combinator_update_is_merge {U B : Type} (I : Item T M A) (J : Item U M B) (LI : Lawful I) (LJ : Lawful J)
@@ -335,6 +363,17 @@ example : ∃ s, Seg.fromIter affHashItem [affLeaf 1, affLeaf 2, affLeaf 3] = .o
       [.done, .done, .val (87253, 2248091, 17293), .vals [(5, 131, 1), (11, 131, 1), (7, 131, 1)]] := by
   obtain ⟨s, e, h⟩ := history_refines_from_iter affHashItem affHash_lawful [affLeaf 1, affLeaf 2, affLeaf 3] (by simp)
     [.modify 0 1 (0, 5), .modify 1 2 (2, 1), .ask 0 2, .dbg] (by simp [OpsOK, OpOK])
+  exact ⟨s, e, by rw [h]; decide⟩
+
+/-- the asymmetric lazy item: eight zeros, `a[i] += 1 + i` as one range modification that stays pending in the root, a second
+    progression on a part that straddles the middle; the answers are those of the plain list -/
+example : ∃ s, Seg.fromIter apItem ((List.range 8).map fun i => apLeaf (i : Nat) 0) = .ok s ∧
+    s.run apItem [.modify 0 7 (0, 1, 1), .ask 0 3, .modify 2 5 (2, 10, -1), .ask 4 7, .dbg] =
+      [.done, .val (10, 4, 6, some 0), .done, .val (41, 4, 22, some 4),
+       .vals [(1, 1, 0, some 0), (2, 1, 1, some 1), (13, 1, 2, some 2), (13, 1, 3, some 3), (13, 1, 4, some 4),
+              (13, 1, 5, some 5), (7, 1, 6, some 6), (8, 1, 7, some 7)]] := by
+  obtain ⟨s, e, h⟩ := history_refines_from_iter apItem ap_lawful.1 ((List.range 8).map fun i => apLeaf (i : Nat) 0) (by decide)
+    [.modify 0 7 (0, 1, 1), .ask 0 3, .modify 2 5 (2, 10, -1), .ask 4 7, .dbg] (by simp [OpsOK, OpOK])
   exact ⟨s, e, by rw [h]; decide⟩
 
 /-- a lazy item whose modifier type is `Unit`: two overlapping flips, queries crossing the pending flips -/
